@@ -4,6 +4,7 @@ import TcheranVerif.Model.See
 import TcheranVerif.Model.San
 import TcheranVerif.Model.Time
 import TcheranVerif.Model.Search
+import TcheranVerif.Model.UciCtl
 /-!
 # Request handlers for the engine-level properties (mirror of `harness/src/cmds2.rs`)
 Each returns `(model answer, specification answer)`.
@@ -340,6 +341,48 @@ def searchHandle (mbText jobsText : String) : String × String :=
                  (s!"model-panic:{out.panic.getD ""}" :: accS).reverse)
     let (m, s) := go jobs (TT.new mb) Search.newHistory [] []
     (" ; ".intercalate m, " ; ".intercalate s)
+
+/-! ### C05 -/
+
+def ctlCmd? : String → Option UciCtl.Cmd
+  | "isready" => some .isready | "ucinewgame" => some .ucinewgame | "position" => some .position
+  | "setoption" => some .setoption | "gofinite" => some .goFinite | "goinfinite" => some .goInfinite
+  | "stop" => some .stop | "quit" => some .quit | _ => none
+
+def ctlHandle (cmdsText : String) : String × String :=
+  let toks := (cmdsText.splitOn " ").filter (· ≠ "")
+  let cmds := toks.filterMap ctlCmd?
+  if cmds.length ≠ toks.length then bad else
+  let (stuck, n) := UciCtl.explore cmds
+  let count (c : UciCtl.Cmd) := (cmds.filter (· == c)).length
+  (s!"stuck={boolDigit stuck} states={n} readyok={count .isready} bestmove={count .goFinite + count .goInfinite} exits={boolDigit (cmds.contains .quit)}", "-")
+
+/-! ### C17 -/
+
+/-- `UciCommand::Position`: `expect_matching` on the generated moves, then `make_move` -/
+def positionCmd (g : Game) (moves : List Move) : Option Game :=
+  moves.foldl (fun g m => g.bind fun g =>
+    match generateLegal g with
+    | none => none
+    | some legal =>
+      match legal.find? (fun x => x.src = m.src ∧ x.dst = m.dst ∧ x.promotion = m.promotion) with
+      | some x => Game.makeMove theCfg g x
+      | none => none) (some g)
+
+def gameHandle (fen movesText : String) : String × String :=
+  match readPosition fen with
+  | none => bad
+  | some p =>
+    let ms := ((movesText.splitOn " ").filter (· ≠ "")).map parseMove
+    if ms.any Option.isNone then bad else
+    let ms := ms.filterMap id
+    let final := ms.foldl (fun pos m => Rules.apply pos m) p.pos
+    let spec := s!"fen={posText final}|moves={" ".intercalate (sortStrings ((Rules.legalMoves final).map Move.uci))}"
+    match positionCmd p.game ms with
+    | none => ("panic", spec)
+    | some g =>
+      let legal := (generateLegal g).getD []
+      (s!"fen={Fen.write g}|moves={" ".intercalate (sortStrings (legal.map Move.uci))}", spec)
 
 end Driver
 end Tcheran
